@@ -209,8 +209,8 @@ def jobs(tier, seed):
             if tier == 'quick' and (i == 1 or (panel != 'P1' and i == 2 and
                                                sym != ['ngm'])):
               continue
-            if panel != 'P1' and m == 'exhaustive' and sym == [
-                'budget'] and (el is None or tier == 'quick'):
+            if panel not in ('P1', 'P13') and m == 'exhaustive' and sym == [
+                'budget']:
               continue   # 4-geo exhaustive budget cells: too many paths
             pw = [3, 10, -4][(len(out)) % 3]
             name = '%s-%s-%s-%s-e%d' % (panel, m, t, '+'.join(sym), i)
@@ -224,8 +224,10 @@ def jobs(tier, seed):
   if tier == 'thorough':
     for panel in ['P1', 'P12']:
       for m in ['exhaustive', 'greedy']:
-        for t in TRANSFORMS:
+        for t in TRANSFORMS[:6]:
           for sym in (['budget', 'share'], ['vol', 'tsize'], ['ngm', 'share']):
+            if panel == 'P12' and m == 'exhaustive' and 'budget' in sym:
+              continue
             name = '%s-%s-%s-%s' % (panel, m, t, '+'.join(sym))
             out.append(dict(func='pair_job', name=name, weight=60, kwargs=dict(
                 name=name, panel=panel, method=m, tname=t, sym=sym, elig=None,
